@@ -96,6 +96,11 @@ func (st *programState) runBalancesQuery() error {
 	// merge the fetched balances into the cache: what is already known
 	// (and possibly updated by the statements run so far) is kept
 	for account, accountBalances := range balances {
+		if account == "world" {
+			// the balance of @world is never requested: an entry the store
+			// returns anyway is not something the script may observe
+			continue
+		}
 		cachedAccountBalances := defaultMapGet(st.CachedBalances, account, func() AccountBalance {
 			return AccountBalance{}
 		})
